@@ -15,9 +15,9 @@ EINSUM_BACKENDS = {"numpy": ("add", "mul"), "funsor.einsum.numpy_log": ("logadde
 GRID = [0.25 * i for i in range(1, 9)]
 
 
-def sem_opts(sem, depth, reals):
+def sem_opts(sem, depth, reals, edge=False):
     s, p = sem
-    return Opts(semiring=sem, ops_binary=(p, p, s), ops_reduce=(s,), max_depth=depth, reals=reals, max_names=5)
+    return Opts(semiring=sem, ops_binary=(p, p, s), ops_reduce=(s,), max_depth=depth, reals=reals, max_names=5, edge=edge)
 
 
 def einsum_cases():
@@ -30,7 +30,7 @@ def einsum_cases():
         used = sorted(set("".join(operands)))
         out = "".join(c for c in used if R(0, 2) == 0)
         sizes = {c: R(1, 3) for c in syms}
-        return dict(kind="einsum", operands=operands, out=out, sizes=sizes, backend=draw(st.sampled_from(sorted(EINSUM_BACKENDS))), a=R(0, 9973), b=R(1, 97),
+        return dict(kind="einsum", neginf=bool(R(0, 1)), operands=operands, out=out, sizes=sizes, backend=draw(st.sampled_from(sorted(EINSUM_BACKENDS))), a=R(0, 9973), b=R(1, 97),
                     fn=draw(st.sampled_from(["einsum", "naive_einsum", "naive_contract_einsum"])))
 
     return _s()
@@ -50,7 +50,7 @@ class C08(Prop):
         "reference evaluator vf/lang.py; non-negative data wherever max/min is paired with mul; booleans for or/and",
         "einsum oracle: explicit fold of the semiring over the joint index space (numpy)",
     )
-    cases = {"quick": 3000, "thorough": 100000}
+    cases = {"quick": 6000, "thorough": 100000}
 
     def strategy(self, tier):
         d = 3 if tier == "quick" else 4
@@ -67,7 +67,9 @@ class C08(Prop):
             src = SeedSource(seed)
             sem = src.pick(SEMIRINGS)
             reals = sem[0] != "or" and src.pick([False, True])
-            return dict(kind="ast", sem=sem, route=src.pick(ROUTES), ast=gen_expr(src, sem_opts(sem, d, reals), ("real", ())))
+            # semiring zeros (-inf) and negative entries where the product is add
+            edge = sem[1] == "add" and not reals and src.pick([False, True])
+            return dict(kind="ast", sem=sem, route=src.pick(ROUTES), ast=gen_expr(src, sem_opts(sem, d, reals, edge), ("real", ())))
 
         uniform = st.integers(0, 2**40).map(seeded)
         return st.one_of(asts, uniform, uniform, uniform, uniform, uniform, einsum_cases())
@@ -137,7 +139,7 @@ class C08(Prop):
         except Exception as e:
             raise Decline("raised:" + innermost_funsor_frame(e))
         # (max|min, mul) are semirings on non-negative data only: keep free real parameters non-negative there
-        carrier_nonneg = case["sem"][1] == "mul" and case["sem"][0] in ("max", "min")
+        carrier_nonneg = case["sem"][0] in ("max", "min")  # operands may multiply by the free real parameter
         evaluate_against_oracle(node, r, stt, route, nonneg_reals=carrier_nonneg)
         stt.count("completed")
         tens = [n for n in walk(node) if n[0] == "ten"]
@@ -176,7 +178,11 @@ class C08(Prop):
             shape = [sizes[c] for c in spec]
             n = int(np.prod(shape)) if shape else 1
             m = len(GRID)
-            datas.append(np.asarray([GRID[(case["a"] + 13 * i + case["b"] * k + (k * k) // 3) % m] for k in range(n)], dtype=float).reshape(shape))
+            vals = [GRID[(case["a"] + 13 * i + case["b"] * k + (k * k) // 3) % m] for k in range(n)]
+            if p == "add" and case.get("neginf"):
+                # semiring zeros: some entries are -inf (log 0)
+                vals = [(-np.inf if (case["a"] + 7 * i + 3 * k) % 4 == 0 else v) for k, v in enumerate(vals)]
+            datas.append(np.asarray(vals, dtype=float).reshape(shape))
         fs = [Tensor(d, OrderedDict((c, Bint[sizes[c]]) for c in spec)) for d, spec in zip(datas, operands)]
         if len({id(f) for f in fs}) != len(fs):
             raise Decline("duplicate operand objects")
